@@ -116,8 +116,9 @@ where
         writeln!(writer, "#[derive(Debug, Default, YaSerialize, YaDeserialize)]")?;
         writeln!(writer, "#[yaserde(prefix = \"soapenv\", {yaserde_ns_header})]")?;
         writeln!(writer, "pub struct {rust_name} {{")?;
-        for (part_name, header) in &soap_operation.headers {
-            let field_name = as_field_name(part_name);
+        // headers of different messages may bind parts of one name
+        let field_names = unique_field_names(soap_operation.headers.iter().map(|(part_name, _)| part_name.as_str()));
+        for ((_part_name, header), field_name) in soap_operation.headers.iter().zip(&field_names) {
             // a header entry is the element the part refers to: it goes on the wire under the element's name
             let xml_name = header.rust_type.xml_name().ok_or(WriterError::InvalidReference)?;
             let rust_type = as_type_name(xml_name);
@@ -144,8 +145,7 @@ where
 
         // Write the restriction check
         write_check_restrictions_header(writer, &rust_name, None)?;
-        for (part_name, _header) in &soap_operation.headers {
-            let field_name = as_field_name(part_name);
+        for field_name in &field_names {
             writeln!(
                 writer,
                 "     self.{field_name}.check_restrictions(restrictions.clone())?;"
@@ -214,4 +214,20 @@ where
     write_check_restrictions_footer(writer)?;
 
     Ok(())
+}
+
+/// the field names for the given part names; a name that is taken already gets a numeric suffix
+fn unique_field_names<'a>(part_names: impl Iterator<Item = &'a str>) -> Vec<String> {
+    let mut taken: Vec<String> = vec![];
+    for part_name in part_names {
+        let field_name = as_field_name(part_name);
+        let mut candidate = field_name.clone();
+        let mut n = 1;
+        while taken.contains(&candidate) {
+            n += 1;
+            candidate = format!("{field_name}_{n}");
+        }
+        taken.push(candidate);
+    }
+    taken
 }
